@@ -135,6 +135,7 @@ def write_replay(prop, res, g, tier, seed):
                "cases": list(g["cases"])[:20], "case": v["case"], "event": v["ev"], "why": v["why"],
                "trace": v["shard"], "trace_line": v["line"], "rust": case_source(res, v["case"]),
                "rust_lib": case_lib_source(res, v["case"]), "script": case_script(res, v["case"]),
+               "edition": (re.match(r"edition(\d{4}):", res["cases"][str(v["case"])]["label"]) or [None, "2021"])[1],
                "how": "the event at trace_line of trace (recorded from the case above, built from /repo) is not allowed by "
                       "spec/TraceRt.tla; re-run:  /verif/check %s --replay %s" % (prop, path)},
               open(path, "w"), indent=1)
